@@ -33,6 +33,10 @@ CLAIMED = {
          "Exploration by generated histories (2-20 steps, 4 names, 4 extension lists): hit identity and loader silence, failures not cached, development mode always reloading and never storing, Set.Parse storing nothing, extension probe order from cold.",
          "Faults are injected by a wrapping loader; 'maybe cached' templates carry no assertion until requested directly.",
          "DESIGN.md section 5/C16"),
+ 'C01': ('property-based testing (rapid), model-based: generated nesting paths with render sites over special-byte-rich values; oracle = independent MiniJet reference interpreter (escape exactly once with the Set escaper, SafeWriter bypass only in last position, literal text verbatim), exact byte equality',
+         "Exploration by generated search: nesting depth 0-5 over ten construct kinds (plus extends), values of many kinds and sources, three escaper configurations, all documented SafeWriters and a custom one; HTML escaping is not idempotent, so 'escaped twice' and 'not escaped' both differ from the expectation.",
+         'Trusts the reference interpreter (harness/mj) for the sub-language used; Renderer values are not generated (documented bypass); custom escapers are byte-wise (the printer legitimately writes in 4096-byte chunks).',
+         'DESIGN.md section 5/C01'),
 }
 PENDING = {}
 
